@@ -178,7 +178,7 @@ PROPS['C02'] = {
                   '(*io/newick.Scanner).read', '(*io/newick.Scanner).unread', '(*io/newick.Scanner).scanWhitespace', '(*io/newick.Scanner).scanIdent',
                   '(*io/newick.Scanner).Scan', '(*io/newick.Parser).scan', '(*io/newick.Parser).unscan', '(*io/newick.Parser).scanIgnoreWhitespace',
                   '(*io/newick.Parser).consumeComment', '(*io/newick.NodeStack).Clear',
-                  ('(*io/newick.Parser).parseIter', {'match': [r'^nil', r'^bounds', r'^div0', r'^typeassert', r'^nopanic', r'^decreases', r'^inv', r'^pre', r'^noexit', r'^post']}),
+                  ('(*io/newick.Parser).parseIter', {'match': [r'^nil', r'^bounds', r'^div0', r'^typeassert', r'^nopanic', r'^decreases', r'^inv', r'^pre\.(?!\(\*tree\.Tree\)\.ConnectNodes)', r'^noexit', r'^post']}),
                   ('(*io/newick.Parser).Parse', {'match': [r'^nil', r'^bounds', r'^div0', r'^typeassert', r'^nopanic', r'^decreases', r'^inv', r'^pre', r'^noexit']}),
                   ('(*io/nexus.Parser).Parse', {'match': [r'^nil', r'^bounds', r'^div0', r'^typeassert', r'^nopanic', r'^decreases', r'^inv', r'^pre', r'^noexit']})],
     'trusted_base': TB_COMMON,
